@@ -59,6 +59,25 @@ Theorem C24_deploy_status : forall b xs app entry (sel : names -> bool),
 Proof. exact status_built. Qed.
 Print Assumptions C24_deploy_status.
 
+(* GetDeployStatus in full: deployed workloads plus deployments in flight (processing markers),
+   per node, of exactly (app, entry) -- on both stores (redis: queried names without glob
+   metacharacters); and every marker with a distinct ident can be created *)
+Theorem C24_deploy_status_total : forall b xs ps app entry (selw : names -> bool) (selp : proc -> bool),
+  Forall good xs -> NoDup (map nm_id xs) -> Forall good_proc ps ->
+  valid_app app = true -> valid_entry entry = true ->
+  (b = Redis -> no_meta app /\ no_meta entry) ->
+  (forall x, selw x = true <-> (nm_app x = app /\ nm_entry x = entry)) ->
+  (forall p, selp p = true <-> (p_app p = app /\ p_entry p = entry)) ->
+  deploy_status b (fst (build_names [] xs)) (map pentry ps) app entry =
+  agg (map (fun x => (nm_node x, 1%N)) (filter selw xs) ++ map (fun p => (p_node p, p_count p)) (filter selp ps)).
+Proof. exact deploy_status_total. Qed.
+Print Assumptions C24_deploy_status_total.
+
+Theorem C24_processing_created : forall ps, Forall good_proc ps -> NoDup (map p_ident ps) ->
+  build_procs_n [] ps = (map pentry ps, map (fun _ => true) ps).
+Proof. intros ps F ND. exact (build_procs_good ps [] (Forall_nil _) F ND). Qed.
+Print Assumptions C24_processing_created.
+
 (* WorkloadStatusStream(app, entry, node) on etcd watches exactly the status keys of the workloads
    created under the (non-ignored) names *)
 Theorem C24_status_stream : forall xs app entry node (sel : names -> bool),
